@@ -55,6 +55,12 @@ func CreateCertPoolFromSignedData(signedDataBytes, rootCertBytes []byte) (*Signe
 		return nil, fmt.Errorf("[CreateCertPoolFromSignedData] empty cert chain")
 	}
 
+	// the signer must be a master list signer (Doc 9303-12: extendedKeyUsage id-icao-mrtd-security-masterListSigner):
+	// any other certificate of the root - a document signer, say - must not be able to introduce trust anchors
+	if err = verifyMasterListSigner(certChain[0]); err != nil {
+		return nil, fmt.Errorf("[CreateCertPoolFromSignedData] %w", err)
+	}
+
 	// acquire lock (for adding certs)
 	out.lock.Lock()
 	defer out.lock.Unlock()
@@ -80,4 +86,23 @@ func CreateCertPoolFromSignedData(signedDataBytes, rootCertBytes []byte) (*Signe
 	}
 
 	return &out, nil
+}
+
+var oidMasterListSigner = asn1.ObjectIdentifier{2, 23, 136, 1, 1, 3}
+
+func verifyMasterListSigner(signerCertBytes []byte) error {
+	certs, err := ParseCertificates(signerCertBytes)
+	if err != nil || len(certs) != 1 {
+		return fmt.Errorf("unable to parse the master list signer certificate")
+	}
+
+	eku, err := certs[0].TbsCertificate.Extensions.ExtKeyUsage()
+	if err != nil {
+		return fmt.Errorf("master list signer: ExtKeyUsage parse error: %w", err)
+	}
+	if eku == nil || !eku.HasOID(oidMasterListSigner) {
+		return fmt.Errorf("the signer certificate is not a master list signer (extendedKeyUsage)")
+	}
+
+	return nil
 }
